@@ -698,11 +698,21 @@ def run_pager_values(task):
                 args.append("--pager=" + val)
             else:
                 env[src] = val
-            try:
-                status, out, err = run_cli(args, data, env=env, timeout=20.0)
-            except Exception as e:
-                status, out, err = -9, b"", ("%s: %s" % (type(e).__name__, e)).encode()
-            n += 1
+            runs = [(args, data)]
+            if src != "--pager":
+                # (the subcommands that start a pager of their own look at the environment only)
+                runs += [(["--no-gitconfig", sub], b"") for sub in ("--help", "--show-colors", "--show-syntax-themes",
+                                                                    "--list-languages")]
+            status, err = 0, b""
+            for a_, d_ in runs:
+                try:
+                    status, out, err = run_cli(a_, d_, env=env, timeout=20.0)
+                except Exception as e:
+                    status, out, err = -9, b"", ("%s: %s" % (type(e).__name__, e)).encode()
+                n += 1
+                if status == 101 or status < 0 or b"panicked" in err or b"report the bug" in err:
+                    args = a_
+                    break
             if status == 101 or status < 0 or b"panicked" in err or b"report the bug" in err:
                 site = explore.crash_site(err.decode("utf-8", "replace")) if b"panicked" in err else "status%d" % status
                 v = Violation("crash:pager-value:%s:%s" % (site, src),
